@@ -758,6 +758,9 @@ func runC18(c *CaseCtx) *CaseResult {
 		cc.CommitEvery = 90
 		if kind == "map" && c.Case%4 == 1 {
 			cc.Dig = &DigProfile{Alpha: [4]uint64{alpha0, 3, 2, 0}, Salt: uint64(c.CaseSeed())}
+			if c.Case%8 == 5 {
+				cc.Dig.Alpha = [4]uint64{alpha0, 2, 1, 1} // keys colliding on every level: linearly scanned last-level lists
+			}
 			cc.Limit = uint32(c.Case / 4 % 3)
 			cc.SetLimit = true
 			cc.Prof.KeySpace = 120
@@ -887,6 +890,16 @@ func isSlabIDFatal(err error) bool {
 func (w *World) externalErrorEnumeration(root *Node) error {
 	regs := w.led.Snapshot()
 	id := rootID(root)
+	var probeKeys []*Node
+	if root.Kind == KMap {
+		es := root.sortedEntries()
+		for i := 0; i < 6 && len(es) > 0; i++ {
+			probeKeys = append(probeKeys, es[w.rng.Intn(len(es))].Key)
+		}
+		for i := 0; i < 2; i++ {
+			probeKeys = append(probeKeys, w.genKey(root, w.prof.KeySpace*3))
+		}
+	}
 	probe := func(failR, failC, failH int) (int, int, int, error, error) {
 		led := NewLedgerFrom(regs, nil)
 		ps := newStorage(led)
@@ -911,11 +924,18 @@ func (w *World) externalErrorEnumeration(root *Node) error {
 			if err != nil {
 				return led.retrieveNo, cb.CmpCalls, cb.HipCalls, err, nil
 			}
-			es := root.sortedEntries()
-			if len(es) > 0 {
-				_, opErr = m.Get(cb.Compare, cb.HashInput, scalarValue(es[len(es)/2].Key))
+			// lookups of several present keys (spread over the structure: plain elements, collision groups, last-level
+			// lists) with Get and Has, and of absent keys next to them
+			for _, k := range probeKeys {
+				if opErr != nil {
+					break
+				}
+				_, opErr = m.Get(cb.Compare, cb.HashInput, scalarValue(k))
+				if isKeyNotFound(opErr) {
+					opErr = nil
+				}
 				if opErr == nil {
-					_, opErr = m.Get(cb.Compare, cb.HashInput, scalarValue(es[len(es)-1].Key))
+					_, opErr = m.Has(cb.Compare, cb.HashInput, scalarValue(k))
 				}
 			}
 		}
